@@ -171,7 +171,11 @@ theorem parseObject_Spec (p : Policy) (cs : Sites) (ok : Nat → Prop) (hns : p.
     Spec p ok k (parseObject p cs ds base obj k) := by
   have hd1 := poDefaults_spec p cs ok hns hcd hcb hcf ds base k hds hbase hf
   simp only [parseObject]
-  generalize poDefaults p cs ds base k = d1 at hd1 ⊢
+  generalize poDefaults p cs ds base k = d0 at hd1 ⊢
+  have hda := mutT_spec p .adapt ok d0.val d0.next hd1.2.1 (hf.mono hd1.2.2)
+  have hd0w := hd1.1
+  replace hd1 : Spec p ok k (adaptMut p d0.val d0.next) := ⟨hda.1, hda.2.1, Nat.le_trans hd1.2.2 hda.2.2⟩
+  generalize adaptMut p d0.val d0.next = d1 at hd1 ⊢
   have ho := copyIf_clone_spec p [] ok cs.parseObject obj d1.next hobj (hf.mono hd1.2.2)
   generalize copyIf cs.parseObject (recreate p []) obj d1.next = o at ho ⊢
   have hk0 : k ≤ o.next := Nat.le_trans hd1.2.2 ho.2
@@ -189,7 +193,8 @@ theorem parseObject_Spec (p : Policy) (cs : Sites) (ok : Nat → Prop) (hns : p.
   refine ⟨?_, hmg.2.1, Nat.le_trans hk3 hv.2.2⟩
   intro w hw
   simp only [List.mem_append] at hw
-  rcases hw with ((hw | hw) | hw) | hw
+  rcases hw with (((hw | hw) | hw) | hw) | hw
+  · exact hd0w w hw
   · exact hd1.1 w hw
   · exact ha.1 w hw
   · exact hmg.1 w hw
